@@ -1174,7 +1174,8 @@ class MyPyAstVisitor:
                     if self.mypy_file is None:  # pragma: no cover
                         raise TypeError("Expected mypy_file (module information), got None.")
 
-                    if self.mypy_file.fullname == type_path:
+                    module_qname = self.mypy_file.fullname
+                    if type_path == module_qname or type_path.startswith(f"{module_qname}."):
                         qname = alias_qname
                         break
 
